@@ -17,13 +17,14 @@ QUERIES = [['q', 'is_dir', 'D', 'M'], ['q', 'exists', 'D', 'M'], ['q', 'list_dir
            ['q', 'walk', 'D', 'M'], ['q', 'is_dir', 'D/E', 'M'], ['q', 'list_dir', 'D/E', 'M'],
            ['q', 'is_file', 'D/x', 'M']]
 EXT1 = ['absent', 'empty-dir', 'dir-with-file']
-EXT2 = ['none', 'delete-D', 'create-D', 'plant-in-D', 'plant-in-E']
+EXT2 = ['none', 'delete-D', 'create-D', 'plant-in-D', 'plant-in-E', 'delete-foreign']
 
 
 def programs():
     """yield (name, program)"""
-    targets = ['D/x', 'D/E/x']
-    targets2 = ['D/y', 'D/E/y']
+    # (D/A and D/B: sibling directories whose only common ancestor is D)
+    targets = ['D/x', 'D/E/x', 'D/A/x']
+    targets2 = ['D/y', 'D/E/y', 'D/B/y']
     for shape in ('seq', 'nested'):
         for t1 in targets:
             for t2 in targets2:
@@ -46,7 +47,13 @@ def programs():
                                 sbody.append(['bf', t2, 'B2', {'catch': True}])
                             sbody += QUERIES
                             funcs['S'] = {'kind': 'sb', 'idx': 1, 'body': sbody}
-                            root = [['sb', 'S', {'catch': True}], ['q', 'exists', 'D', 'M']]
+                            # a sibling cacheable operation that only observes the directories
+                            funcs['T'] = {'kind': 'sb', 'idx': 4, 'body': [['q', 'is_dir', 'D', 'M'],
+                                                                          ['q', 'list_dir', 'D', 'M'],
+                                                                          ['q', 'is_dir', 'D/E', 'M'],
+                                                                          ['q', 'walk', 'D', 'M']]}
+                            root = [['sb', 'S', {'catch': True}], ['sb', 'T', {'catch': True}],
+                                    ['q', 'exists', 'D', 'M']]
                             name = '%s|%s:%s|%s:%s|catch2=%s' % (shape, t1, o1, t2, o2, catch2)
                             yield name, {'funcs': funcs, 'roots': [root]}
 
@@ -57,7 +64,7 @@ def all_cases():
 
 def run_overlay_cases(sh, select, stride=1):
     cases = all_cases()
-    mine = cases[sh.idx::sh.n][::stride]
+    mine = cases[sh.idx::sh.n][(sh.seed % stride)::stride]
     for name, program, e1, e2 in mine:
         if sh.time_left() <= 0:
             return False
@@ -92,6 +99,10 @@ def run_overlay_cases(sh, select, stride=1):
                 w.ext_write('D/planted', b'planted')
             elif e2 == 'plant-in-E':
                 w.ext_write('D/E/planted', b'planted')
+            elif e2 == 'delete-foreign':
+                if e1 != 'dir-with-file':
+                    continue
+                w.ext_delete('D/foreign')
             for rnd in range(2):
                 sr2 = w.build(program, program['roots'][0], {}, label=0)
                 sh.evaluations += 1
